@@ -414,6 +414,8 @@ def is_integer(t):
                 continue
             if a.kind == 'call' and a.args[0] in ('round', 'floor', 'ceil', 'trunc', 'len', 'floordiv', 'mod'):
                 continue
+            if a.kind == 'ite' and is_integer(a.args[1]) and is_integer(a.args[2]):
+                continue
             return False
     return True
 
